@@ -83,13 +83,18 @@ def parseUint (s : Bytes) (base bitSize : Nat) : PU :=
   | some e => ⟨n, some e⟩
   | none => if us && !underscoreOK s then ⟨0, some .syntax⟩ else ⟨n, none⟩
 
+/-- optional sign: (negative?, rest) -/
+def splitSign (s : Bytes) : Bool × Bytes :=
+  match s with
+  | 43 :: r => (false, r)
+  | 45 :: r => (true, r)
+  | _ => (false, s)
+
 /-- strconv.ParseInt(s, base, bitSize) -/
 def parseInt (s : Bytes) (base bitSize : Nat) : PI :=
   if s.isEmpty then ⟨0, some .syntax⟩ else
-  let (neg, s') : Bool × Bytes := match s with
-    | 43 :: r => (false, r)
-    | 45 :: r => (true, r)
-    | _ => (false, s)
+  let neg := (splitSign s).1
+  let s' := (splitSign s).2
   let r := parseUint s' base bitSize
   if r.err == some .syntax then ⟨0, some .syntax⟩ else
   let bits := if bitSize == 0 then 64 else bitSize
